@@ -15,7 +15,7 @@ import zlib
 from harness.common import Atom, classify_exception
 
 RULE = ("op sequences (1..25 store/fetch/exists on files and chunks) on a real temp dir under every "
-        "flat/deep x gzip x compresslevel{1,9} config, names from a grammar (clean pool with spelling "
+        "flat/deep x gzip x compresslevel{0,1,9} config, names from a grammar (clean pool with spelling "
         "variants; dirty stream: '..' in every position, absolute, empty, '.', '.gz' names, prefixes), "
         "contents incl. empty and 70 kB, MIME types incl. the exempt ones; every dataset re-read under "
         "all other configs; ShardedFileAccessor file methods; get_accessor_for_url on local URLs. "
@@ -23,7 +23,7 @@ RULE = ("op sequences (1..25 store/fetch/exists on files and chunks) on a real t
 
 MIMES = ["application/octet-stream", "application/json", "image/jpeg", "image/png", "text/plain", ""]
 EXEMPT = {"application/json", "image/jpeg", "image/png"}
-CONFIGS = [(f, g, l) for f in (False, True) for g in (False, True) for l in (1, 9)]
+CONFIGS = [(f, g, l) for f in (False, True) for g in (False, True) for l in (1, 9, 0)]
 SENTINEL = b"SENTINEL-outside-the-dataset"
 
 
@@ -473,7 +473,7 @@ def file_accessor_part(R, nseq):
         # (mixed-configuration tree: both layouts / both plain and .gz may then exist)
         cfg2, ops2, outs2, snap2 = None, [], [], None
         if rng.random() < 0.35:
-            cfg2 = rng.choice([c for c in CONFIGS if c[:2] != (flat, gz)])
+            cfg2 = rng.choice([c for c in CONFIGS if c != (flat, gz, lvl)])
             for op in ops:
                 if op[0] == "sf" and rng.random() < 0.7:
                     ops2.append(["sf", op[1], gen_content(rng, False), op[3], True])
